@@ -23,7 +23,8 @@ func genErrSpec(r *Rand) *ErrSpec {
 		e.Code = sqlstates[r.Intn(len(sqlstates))]
 	}
 	if r.Bool() {
-		e.Sev = r.Pick("ERROR", "FATAL", "PANIC")
+		// (any severity: a callback that returns an error has failed)
+		e.Sev = r.Pick("ERROR", "FATAL", "PANIC", "WARNING", "NOTICE", "DEBUG", "INFO", "LOG")
 	}
 	if r.Chance(1, 3) {
 		e.Hint = r.Str(r.Range(1, 10))
@@ -56,6 +57,12 @@ func genErrSpec(r *Rand) *ErrSpec {
 		order += "w"
 	}
 	e.Order = order
+	if r.Chance(1, 8) {
+		// several causes joined into one error value: still one failure
+		for n := r.Range(1, 2); n > 0; n-- {
+			e.Join = append(e.Join, plainErr(r))
+		}
+	}
 	return e
 }
 
